@@ -650,6 +650,29 @@ func TestSim(t *testing.T) {
 		runOne(cfg, "random", func(s *Sim) { s.randomRun(nd, urgent, rng.Intn(3) == 0, rng.Intn(2) == 0) })
 		stats["random_runs"]++
 	}
+	// (2a) a client that has seen a lot: a hundred datagrams nobody waits for (a foreign transaction id, then the callers' own ids
+	// while nobody is calling), then ordinary calls
+	for _, v4 := range []bool{true, false} {
+		for rep := 0; rep < 2; rep++ {
+			cfg := Cfg{T: 2, Tries: 2, BufCap: []int{1, 5}[rep], V4: v4, Timed: true, Urgent: mode == "c11", Mode: "unsolicited-soak", Xid: []int{7, 8}}
+			runOne(cfg, "unsolicited-soak", func(s *Sim) {
+				for k := 0; k < 100 && s.crashed == ""; k++ {
+					s.inject([]int{99, 7, 8, 99}[k%4], []string{"good", "rej", "good", "undec"}[k%4])
+					for n := 0; n < 8; n++ {
+						rs := s.releasableRoles()
+						if len(rs) == 0 {
+							break
+						}
+						s.release(rs[0])
+					}
+				}
+				if s.crashed == "" {
+					s.randomRun(4, mode == "c11", false, false)
+				}
+			})
+			stats["soak_runs"]++
+		}
+	}
 	// (2b) C11 / C12: the retransmission grid and endless streams of rejected datagrams
 	if mode == "c11" {
 		for _, v4 := range []bool{true, false} {
